@@ -280,7 +280,14 @@ func (m *c38Machine) lookups(when string) {
 				m.fail("%s: running registry holds member %d of wallet %d which storage does not hold", when, s.signingGroupMemberIndex, w)
 			}
 		}
-		for idx, rec := range m.storage[w] {
+		var idxs []int
+		for idx := range m.storage[w] {
+			idxs = append(idxs, int(idx))
+		}
+		sort.Ints(idxs)
+		for _, i := range idxs {
+			idx := group.MemberIndex(i)
+			rec := m.storage[w][idx]
 			if !have[idx] {
 				m.fail("%s: storage holds member %d of wallet %d but the running registry does not know that signer (it knows %d signers; a restarted registry would know %d)", when, idx, w, len(signers), len(m.storage[w]))
 			}
@@ -522,7 +529,7 @@ func TestVerif_C38_WalletRegistry(t *testing.T) {
 		outcomes := []string{"ok", "ok", "ok", "ok", "ok", "ok", "ok", "fail", "fail", "crash-before", "crash-after", "crash-after"}
 		steps := rapid.IntRange(3, 30).Draw(t, "steps")
 		for i := 0; i < steps; i++ {
-			op := rapid.SampledFrom([]string{"register", "register", "register", "register-concurrently", "register-concurrently", "archive", "archive", "restart"}).Draw(t, "op")
+			op := rapid.SampledFrom([]string{"register", "register", "register", "register-concurrently", "archive", "archive", "restart"}).Draw(t, "op")
 			w := rapid.IntRange(0, 2).Draw(t, "wallet")
 			idx := group.MemberIndex(rapid.IntRange(1, 5).Draw(t, "member"))
 			share := rapid.IntRange(0, len(shares)-1).Draw(t, "share")
